@@ -1,4 +1,5 @@
 import Model.C20
+import Model.C20X
 /-! Oracle handlers for C20: model output (correspondence) and judge (property on impl output). -/
 namespace OracleC20
 open Common C20
@@ -155,10 +156,194 @@ def handleNoId (f : List String) : String × String × String :=
     (diff, if bad.isEmpty then "-" else ",".intercalate bad, "noid")
   | _ => ("bad-fields", "-", "-")
 
+
+/-! ## extension streams (Model/C20X.lean) -/
+
+def splitStale (s0 : String) : String × Option Ctx :=
+  match s0.splitOn "!" with
+  | [a, r] => (a, (hexDecode r).map fun x => [(CKey.org, x)])
+  | _ => (s0, some [])
+
+def parseHdr (s : String) : Option (List Bytes) :=
+  if s == "none" then some [] else parseOkList s
+
+def parseMD (s : String) : Option (Option (List Bytes)) :=
+  if s == "none" then some none else if s == "empty" then some (some []) else (parseOkList s).map some
+
+def parseHRecv (c : Char) : Option HRecv :=
+  if c == 'e' then some .extract else if c == 't' then some .tenant else if c == 'a' then some .auth else none
+def parseGSend (c : Char) : Option GSend :=
+  if c == 'i' then some .inject else if c == 'u' then some .unary else if c == 's' then some .stream else none
+def parseGRecv (c : Char) : Option GRecv :=
+  if c == 'e' then some .extract else if c == 'u' then some .unary else if c == 's' then some .stream else none
+
+/-- stage syntax: `H<r>:<hdr>`, `T<r>:<hdr>`, `G<s><r>:<md>`, optional `!<stale hex>`. -/
+def parseStage (s0 : String) : Option Stage := do
+  let (s, recv?) := splitStale s0
+  let recv ← recv?
+  match s.splitOn ":" with
+  | [k, v] =>
+    match k.toList with
+    | ['H', r] => do let r ← parseHRecv r; let h ← parseHdr v; pure (.http h recv r)
+    | ['T', r] => do let r ← parseHRecv r; let h ← parseHdr v; pure (.httpgrpc h recv r)
+    | ['G', a, b] => do let a ← parseGSend a; let b ← parseGRecv b; let m ← parseMD v; pure (.grpc m recv a b)
+    | _ => none
+  | _ => none
+
+/-- judge side: the identifier (hex) denotes one single safe tenant (all supplied parts the same). -/
+def singleTenantOK (ids : String) : Bool :=
+  match hexDecode ids with
+  | none => false
+  | some s =>
+    let supplied := (splitOn 124 s).map (fun p => p.takeWhile (· != 58))
+    match supplied with
+    | [] => false
+    | t :: r => safeID t && r.all (· == t)
+
+/-- judge side, on the stage SYNTAX: does the carrier hold a conflicting value, or is the receiving
+entry point the single-tenant one while the identifier does not denote a single tenant? -/
+def stageConflicts (ids : String) (s0 : String) : Bool :=
+  let s := (s0.splitOn "!").headD s0
+  match s.splitOn ":" with
+  | [k, v] =>
+    if k.startsWith "G" then !(v == "none" || v == ids)
+    else
+      let ex := if v == "none" then "-" else (v.splitOn ",").headD "-"
+      ids == "-" || !(ex == "-" || ex == ids) || (k.endsWith "t" && !singleTenantOK ids)
+  | _ => true
+
+def showCtxRes (r : Except (Err × Nat) Ctx) : String :=
+  match r with
+  | .ok c' => (match extractOrgID c' with | .ok x => "ok:" ++ hexEncode x | .error _ => "ok:none")
+  | .error (e, i) => s!"err:{e.name}@{i}"
+
+def handleIChain (f : List String) : String × String × String :=
+  match f with
+  | [ids, stages, obs] =>
+    let c? : Option Ctx := if ids == "none" then some [] else (hexDecode ids).map fun x => [(CKey.org, x)]
+    let strs := if stages == "-" then [] else stages.splitOn " "
+    match c?, strs.mapM parseStage with
+    | some c, some ss =>
+      let m := showCtxRes (ichain c ss 0)
+      let diff := if m == obs then "-" else "model=" ++ m
+      let firstConflict := strs.findIdx? (stageConflicts ids)
+      let errIdx : Option Nat := if obs.startsWith "err:" then ((obs.splitOn "@").getLast?.bind String.toNat?) else none
+      let bad : List String :=
+        (if ids != "none" ∧ obs.startsWith "ok:" ∧ (obs.drop 3).toString != ids then ["id-changed-in-transit"] else []) ++
+        (if ids == "none" ∧ !ss.isEmpty ∧ obs.startsWith "ok:" then ["default-id-invented"] else []) ++
+        (if ids == "-" ∧ obs.startsWith "ok:" ∧ strs.any (fun s => s.startsWith "H" || s.startsWith "T") then ["request-without-id-accepted-over-http"] else []) ++
+        (if ids != "none" ∧ obs.startsWith "ok:" ∧ strs.any (fun s => (s.startsWith "Ht" || s.startsWith "Tt")) ∧ !singleTenantOK ids then ["single-tenant-entry-accepted-multi-or-unsafe"] else []) ++
+        (if ids != "none" ∧ obs.startsWith "err:" then
+          match errIdx, firstConflict with
+          | some i, some p => if i < p then ["id-lost-on-clean-stage"] else []
+          | some _, none => ["id-lost-on-clean-stage"]
+          | none, _ => ["unparsable-failure"]
+         else []) ++
+        (if !(obs.startsWith "ok:") ∧ !(obs.startsWith "err:") then ["unparsable-observation"] else [])
+      let kinds := (if strs.any (·.startsWith "H") then "H" else "") ++ (if strs.any (·.startsWith "G") then "G" else "") ++ (if strs.any (·.startsWith "T") then "T" else "")
+      (diff, if bad.isEmpty then "-" else ",".intercalate bad,
+       s!"ihops={min ss.length 5} res={(obs.take 3).toString} kinds={kinds} clean={firstConflict.isNone}" ++ (if ss.isEmpty then " hops=0" else ""))
+    | _, _ => ("bad-input", "-", "-")
+  | _ => ("bad-fields", "-", "-")
+
+def handleTunnel (f : List String) : String × String × String :=
+  match f with
+  | [ids, spec, obs] =>
+    let c? : Option Ctx := if ids == "none" then some [] else (hexDecode ids).map fun x => [(CKey.org, x)]
+    match c?, spec.splitOn " " with
+    | some c, [hs, inner, stale] =>
+      match parseHdr hs, inner.toList, hexDecode stale with
+      | some h, [ic], some st =>
+        match parseHRecv ic with
+        | none => ("bad-input", "-", "-")
+        | some r =>
+          let recv : Ctx := if st.isEmpty then [] else [(CKey.org, st)]
+          let m := showCtxRes (match tunnel c h recv r with | .ok x => .ok x | .error e => .error (e, 0))
+          let diff := if m == obs then "-" else "model=" ++ m
+          -- judge: a request whose header holds no identifier is rejected; whatever arrives was supplied
+          let first := if hs == "none" then "-" else (hs.splitOn ",").headD "-"
+          let bad : List String :=
+            (if first == "-" ∧ obs.startsWith "ok:" then ["request-without-id-accepted"] else []) ++
+            (if obs.startsWith "ok:" ∧ (obs.drop 3).toString != first ∧ (obs.drop 3).toString != ids then ["default-id-invented"] else []) ++
+            (if ic == 't' ∧ obs.startsWith "ok:" ∧ !singleTenantOK (obs.drop 3).toString then ["single-tenant-entry-accepted-multi-or-unsafe"] else [])
+          (diff, if bad.isEmpty then "-" else ",".intercalate bad, s!"tunnel inner={inner} res={(obs.take 3).toString} ctx={ids != "none"} hdr={first != "-"}")
+      | _, _, _ => ("bad-input", "-", "-")
+    | _, _ => ("bad-input", "-", "-")
+  | _ => ("bad-fields", "-", "-")
+
+def parseBinds (s : String) : Option Ctx :=
+  if s == "-" then some [] else
+  ((s.splitOn ",").mapM fun (b : String) =>
+    match b.toList with
+    | 'o' :: r => (hexDecode (String.ofList r)).map fun v => (CKey.org, v)
+    | 'u' :: r => (hexDecode (String.ofList r)).map fun v => (CKey.user, v)
+    | _ => none).map List.reverse
+
+def showOpt (o : Option Bytes) : String := match o with | some v => hexEncode v | none => "none"
+
+def handleCtx (f : List String) : String × String × String :=
+  match f with
+  | [binds, hs, xu, xo, inj, ext, lg] =>
+    match parseBinds binds, parseHdr hs with
+    | some c, some h =>
+      let mu := showOpt (c.value .user)
+      let mo := showOpt (c.value .org)
+      let mInj := match injectUserHTTP c h with | .ok l => "ok:" ++ showList l | .error e => "err:" ++ e.name
+      let mExt := match extractUserHTTP c h with
+        | .ok c' => "ok:" ++ hexEncode (headerGet h) ++ "/" ++ showOpt (c'.value .user) ++ "/" ++ showOpt (c'.value .org)
+        | .error e => "err:" ++ e.name
+      let mLog := ",".intercalate ((logWith c [("base", [98])]).map fun (k, v) => k ++ "=" ++ hexEncode v)
+      let model := [mu, mo, mInj, mExt, mLog]
+      let diff := if model == [xu, xo, inj, ext, lg] then "-" else "model=" ++ " ".intercalate model
+      -- judge (property text: the identifier placed in a context is the one found there; nothing invented)
+      let lastOrg := ((binds.splitOn ",").filter (·.startsWith "o")).getLast?.map (fun b => (b.drop 1).toString)
+      let want := lastOrg.getD "none"
+      let bad : List String :=
+        (if xo != want then ["context-org-id-not-the-one-placed"] else []) ++
+        (if ext.startsWith "ok:" ∧ (ext.splitOn "/").getLast? != some want then ["user-id-extraction-disturbs-org-id"] else []) ++
+        (if want == "none" ∧ (lg.splitOn ",").any (·.startsWith "orgID=") then ["org-id-invented-in-log"] else []) ++
+        (if want != "none" ∧ !(lg.splitOn ",").contains ("orgID=" ++ want) then ["org-id-missing-or-changed-in-log"] else [])
+      (diff, if bad.isEmpty then "-" else ",".intercalate bad, s!"ctx binds={min c.length 4} org={xo != "none"} user={xu != "none"}")
+    | _, _ => ("bad-input", "-", "-")
+  | _ => ("bad-fields", "-", "-")
+
+def handleJoin (f : List String) : String × String × String :=
+  match f with
+  | [ls, _, joined, frm, multi, single, norm] =>
+    match (if ls == "none" then some [] else parseOkList ls) with
+    | none => ("bad-input", "-", "-")
+    | some l =>
+      let j := joinTenantIDs l
+      let model := [hexEncode j, showRes showList (tenantIDsFromOrgID j), showRes showList (resolveTenantIDs (injectOrgID [] j)),
+        showRes hexEncode (resolveTenantID (injectOrgID [] j)), showList (sortDedup l)]
+      let diff := if model == [joined, frm, multi, single, norm] then "-" else "model=" ++ " ".intercalate model
+      let okList (s : String) : Option (List Bytes) := if s.startsWith "ok:" then parseOkList (s.drop 3).toString else none
+      let normal := !l.isEmpty && l.all safeID && strictlySorted l
+      let bad : List String :=
+        (match okList frm with
+          | some r => (if !r.all safeID then ["from-unsafe"] else []) ++ (if !strictlySorted r then ["from-not-normalised"] else []) ++
+              (if normal ∧ r != l then ["normal-form-not-a-fixpoint"] else [])
+          | none => if normal then ["normalised-list-rejected-after-join"] else []) ++
+        (if frm != multi then ["resolver-and-fromOrgID-disagree"] else []) ++
+        (match okList multi, (if single.startsWith "ok:" then hexDecode (single.drop 3).toString else none) with
+          | some r, some t => if r != [t] then ["resolvers-disagree"] else []
+          | none, some _ => ["single-ok-multi-fails"]
+          | some r, none => if r.length == 1 then ["multi-single-ok-single-fails"] else []
+          | none, none => []) ++
+        (match (if norm == "" then some [] else parseOkList norm) with
+          | some n => if !strictlySorted n ∨ !(l.all (n.contains ·) && n.all (l.contains ·)) then ["normalize-not-sorted-dedup-of-input"] else []
+          | none => if l.isEmpty then [] else ["unparsable-normalised"])
+      (diff, if bad.isEmpty then "-" else ",".intercalate bad, s!"join n={min l.length 4} normal={normal} res={(frm.take 3).toString}")
+  | _ => ("bad-fields", "-", "-")
+
 def handle (cmd : String) (f : List String) : String × String × String :=
   if cmd == "C20.id" then handleId f
   else if cmd == "C20.chain" then handleChain f
   else if cmd == "C20.noid" then handleNoId f
+  else if cmd == "C20.ichain" then handleIChain f
+  else if cmd == "C20.tunnel" then handleTunnel f
+  else if cmd == "C20.ctx" then handleCtx f
+  else if cmd == "C20.join" then handleJoin f
   else ("unknown-cmd", "-", "-")
 
 end OracleC20
